@@ -321,6 +321,10 @@ def execute(case, ctx):
     if res.get("status") != "ok":
         out["discards"]["session-process-died"] = 1
         return out
+    if kind == "ok" and "review" in (cfg.get("_flags") or []) and approved:
+        # "a 'y' answer for that category in review mode": a scripted answer counts only if the prompt for that category appeared
+        asked_yes = {c for c, a in (res.get("asked") or []) if a}
+        approved = (set(cfg["_flags"]) & set(CATS)) | (approved & asked_yes)
     tag = f"eff={'+'.join(sorted(approved)) or '-'}|{kind}|src={'cli' if cfg.get('cli') or cfg.get('shortcut') else 'env' if cfg.get('envvar') is not None else 'tui' if cfg.get('tty') else 'pyproject'}" \
           f"|env={'ci' if cfg.get('ci') else ''}{'+pycharm' if cfg.get('pycharm') else ''}{'xdist' if cfg.get('xdist') else ''}{'xfail' if cfg.get('xfail_all') else ''}{'tty' if cfg.get('tty') else ''}" \
           f"|ans={'+'.join(sorted(k for k, v in (cfg.get('answers') or {}).items() if v))}|{'gen' if case.get('program') else cfg.get('project')}"
